@@ -32,6 +32,7 @@ Inductive err :=
 | EType        (* YAML node of the wrong kind for the target *)
 | EUnknownKey  (* yaml.UnmarshalStrict: field not found in type *)
 | EInternal    (* ill-formed struct value: cannot happen for well-typed trees *)
+| EPanic       (* the Go code panics (nil pointer dereference) *)
 | EInvalid (code : Z).   (* an error returned by a hook; codes are listed at the hooks *)
 
 Inductive res (A : Type) := Ok (a : A) | Err (e : err).
@@ -650,7 +651,9 @@ Definition post_am (m : amap) : res amap :=
 Definition am_validate (v : node) : res unit :=
   match v with
   | NMap m => do _ <- relabels_validate (getl "alert_relabel_configs" m); relabels_validate (getl "relabel_configs" m)
-  | _ => Ok tt   (* a nil *AlertmanagerConfig: rc.Validate on nil ranges over nothing?  no: see notes *)
+  | _ => Err EPanic   (* AlertingConfig.Validate calls rc.Validate on a nil *AlertmanagerConfig
+                         (`alertmanagers: [null]`): c.AlertRelabelConfigs dereferences nil.  Every
+                         other list of sections is checked for null entries; this one is not. *)
   end.
 
 (* QueueConfig.Validate.  codes 50.. *)
